@@ -230,7 +230,7 @@ class Unit:
             return VFunc(key, "unmodelled")
         if spec is None:
             raise GenError("attribute %s of ref %s has no spec (%s)" % (attr, base.cls, key))
-        if spec.kind == "custom":           # attribute whose value / kind depends on the object (handler decides, may branch)
+        if spec.kind == "attrfn":           # attribute whose value / kind depends on the object (handler decides, may branch)
             return spec.handler(ex, None, [base], {})
         if spec.kind == "attr":
             rk = spec.ret
